@@ -11,7 +11,8 @@ from ..seams import CLOCK, F, T, AMHLmod, reset_world
 from ..seams import LIB_ERRORS
 from ..core import real, RealCodeRaised
 from ..oracle import (L, ed_verify, sig_message, base_mult, point_add, pubkey_of_seed,
-                      scalar_to_int, int_to_scalar, as_key_arg, LOCK_FORMS, LIMITS, in_form)
+                      scalar_to_int, int_to_scalar, as_key_arg, LOCK_FORMS, LIMITS, in_form,
+                      ARG_STYLES, styled_flags, styled_sigfields)
 
 AMHL = AMHLmod.AMHL
 PID = 'C18'
@@ -63,6 +64,7 @@ def gen_plan(run_seed, idx, tier):
                        'refund': refund and c == 0,
                        'keys': rng.choice(['bytes', 'bytes', 'bytes', 'object']),
                        'form': rng.choice(LOCK_FORMS), 'limits': rng.below(len(LIMITS)),
+                       'style': rng.choice(ARG_STYLES),
                        'witness_as': rng.choice(['bytes', 'bytes', 'object']),
                        # claimants may publish sig || 00 where no flag is needed: the
                        # lock accepts it, and it is what the left neighbour then reads
@@ -170,6 +172,7 @@ class Chain:
         self.spec = spec
         self.n = spec['n']
         self.flags = spec['flags']
+        self.bflags = styled_flags(spec['flags'], spec.get('style', 'plain'))   # as spelled for builders
         seeds = [bytes.fromhex(s) for s in plan['parties']]
         self.seeds = seeds
         self.pks = [pubkey_of_seed(s) for s in seeds]
@@ -191,7 +194,7 @@ class Chain:
             pk_arg = [as_key_arg('pub', x, how) for x in self.pks[:self.n]]
             if how == 'object':
                 pk_arg = tuple(pk_arg)
-            self.res = real('setup_amhl', T.setup_amhl, seed, pk_arg, self.flags,
+            self.res = real('setup_amhl', T.setup_amhl, seed, pk_arg, self.bflags,
                             refunds, spec['timeout'])
         finally:
             reads = CLOCK.end_call()
@@ -384,7 +387,7 @@ class Sim:
             if wb is None:
                 # (re)derived from durable state after every restart
                 wb = real('make_adapter_witness', T.make_adapter_witness, ch.seeds[i], Ti,
-                          ch.sf[i], ch.flags).bytes
+                          styled_sigfields(ch.sf[i], ch.spec.get('style', 'plain')), ch.bflags).bytes
                 p.cache[(c, 'out_witness')] = wb
             p.durable[(c, 'out_witness')] = wb
             self.send(i, i + 1, ('adapter', c, i, wb))
@@ -659,7 +662,7 @@ class Sim:
             if hop in ch.claimed or hop in ch.refunded:
                 return
             run.probe('with_refund_keys')
-            w = T.make_ptlc_refund_witness(ch.rseeds[hop], ch.sf[hop], ch.flags)
+            w = T.make_ptlc_refund_witness(ch.rseeds[hop], ch.sf[hop], ch.bflags)
             deadline = ch.created + ch.spec['timeout']
             dt = st.get('dt', 0)
             # the payer stamps the refund relative to the deadline if the ledger clock is near it
@@ -779,12 +782,23 @@ def execute(plan, run):
                 run.probe('same_seed_other_length')
             if not ch.spec['seed']:
                 continue        # seedless: legitimately different every time
+            # the very same argument objects (the refund-key dict included), at the same
+            # instant of P0's clock: everything must come out identical, PTLC locks and
+            # their deadlines too
             refunds = ch.refunds_arg
-            again = real('setup_amhl', T.setup_amhl, bytes.fromhex(ch.spec['seed']), ch.pks[:ch.n],
-                         ch.flags, refunds, ch.spec['timeout'])
+            CLOCK.latency_us = 0
+            if ch.created is not None:
+                CLOCK.step('P0', ch.created * 1_000_000 - CLOCK.local_us('P0'))
+            CLOCK.begin_call('P0')
+            try:
+                again = real('setup_amhl', T.setup_amhl, bytes.fromhex(ch.spec['seed']),
+                             ch.pks[:ch.n], ch.flags, refunds, ch.spec['timeout'])
+            finally:
+                CLOCK.end_call()
             same = again['key'] == ch.key and all(
                 again[ch.pks[i]][2] == ch.hops[i][2] and again[ch.pks[i]][3] == ch.hops[i][3] and
-                again[ch.pks[i]][0].bytes == ch.hops[i][0].bytes for i in range(ch.n))
+                again[ch.pks[i]][0].bytes == ch.hops[i][0].bytes and
+                again[ch.pks[i]][1].bytes == ch.hops[i][1].bytes for i in range(ch.n))
             run.check('A1_setup_is_a_function_of_its_arguments', same,
                       'C18/setup/repeated_setup_differs', detail={'n': ch.n})
     run.fault_free = bool(plan['knobs'].get('fault_free'))
